@@ -126,6 +126,46 @@ pub use student_t::StudentT;
 
 pub use num_traits;
 
+/// Verification hooks (only with `--cfg rand_distr_verif`).
+#[cfg(rand_distr_verif)]
+#[doc(hidden)]
+pub mod verif_hooks {
+    use crate::ziggurat_tables as zt;
+    /// The ziggurat constants `(R, X, F)` for the normal (`false`) or exponential (`true`) tables.
+    pub fn zig_tables(exp: bool) -> (f64, &'static [f64; 257], &'static [f64; 257]) {
+        if exp {
+            (zt::ZIG_EXP_R, &zt::ZIG_EXP_X, &zt::ZIG_EXP_F)
+        } else {
+            (zt::ZIG_NORM_R, &zt::ZIG_NORM_X, &zt::ZIG_NORM_F)
+        }
+    }
+    #[cfg(feature = "std")]
+    std::thread_local! {
+        /// (current primitive id or 0, serial number of primitive calls)
+        pub static PRIM: core::cell::Cell<(u8, u32)> = const { core::cell::Cell::new((0, 0)) };
+    }
+    /// Marks the dynamic extent of one primitive draw.
+    #[derive(Debug)]
+    pub struct PrimGuard(());
+    impl PrimGuard {
+        /// Enter primitive `id`.
+        #[inline]
+        pub fn new(id: u8) -> Self {
+            #[cfg(feature = "std")]
+            PRIM.with(|c| { let (_, s) = c.get(); c.set((id, s.wrapping_add(1))); });
+            let _ = id;
+            PrimGuard(())
+        }
+    }
+    impl Drop for PrimGuard {
+        #[inline]
+        fn drop(&mut self) {
+            #[cfg(feature = "std")]
+            PRIM.with(|c| { let (_, s) = c.get(); c.set((0, s)); });
+        }
+    }
+}
+
 #[cfg(feature = "alloc")]
 pub mod multi;
 #[cfg(feature = "alloc")]
